@@ -1,11 +1,10 @@
 CONSTANTS
-  MaxLen = 5
-  MaxWs = 5
-  MaxBody = 5
-  MinEmit = 0
+  MaxLen = 26
+  MaxWs = 6
+  MaxBody = 10
+  MinEmit = 8
 SPECIFICATION Spec
 INVARIANT TypeOK
-INVARIANT GrammarAgree
 INVARIANT Balanced
 INVARIANT CompletionOK
 INVARIANT ValueOK
